@@ -11,7 +11,7 @@ func init() { core.Register("C23", "model_checking", run) }
 
 func run(c *core.C) {
 	n := core.Pick(c, 6, 8)
-	d := core.Pick(c, 0, 1)
+	d := core.Pick(c, 0, 2)
 	or := tmworld.Oracles{C23: true}
 	mk := func(p tmworld.Params, adv, rec int) *tmworld.Scenario {
 		return tmworld.New(tmworld.Config{P: p, MaxAdv: adv, MaxRec: rec, Mis: false}, or)
